@@ -67,10 +67,10 @@ func (c *c14Channel) deliver(m *c14Msg) {
 type c14Msg struct{ id int }
 
 func (m *c14Msg) TransportSenderID() net.TransportIdentifier { return nil }
-func (m *c14Msg) SenderPublicKey() []byte                     { return []byte{1} }
-func (m *c14Msg) Payload() interface{}                        { return m.id }
-func (m *c14Msg) Type() string                                { return "c14/msg" }
-func (m *c14Msg) Seqno() uint64                               { return uint64(m.id) }
+func (m *c14Msg) SenderPublicKey() []byte                    { return []byte{1} }
+func (m *c14Msg) Payload() interface{}                       { return m.id }
+func (m *c14Msg) Type() string                               { return "c14/msg" }
+func (m *c14Msg) Seqno() uint64                              { return uint64(m.id) }
 
 // ---- toy protocol ------------------------------------------------------------
 
